@@ -214,6 +214,7 @@ def main():
         ctx.ev = dict(states=0, transitions=0, traces=0, evaluations=0, nontrivial=set(), samples=[], phases=[], mutants=[],
                       exhaustive=True, assumptions=list(plan.get("assumptions", [])))
         ctx.bads = []       # (phase name, bad record, trace line)
+        ctx.infra = []
         if args.replay:
             rc = do_replay(ctx, plan, args.replay)
         else:
@@ -222,8 +223,15 @@ def main():
                     continue
                 if args.only_phase and ph["name"] != args.only_phase:
                     continue
-                run_phase(ctx, ph)
+                try:
+                    run_phase(ctx, ph)
+                except Infra as e:
+                    # an infrastructure problem in one phase must not hide deviations established by the others
+                    ctx.infra.append(f"{ph['name']}: {e}")
+                    print(f"INFRA property={pid} phase={ph['name']}: {e}")
             rc = conclude(ctx, plan, time.time() - t0)
+            if ctx.infra and rc == 0:
+                rc = 2
     except Infra as e:
         print(f"INFRA property={pid}: {e}")
         rc = 2
